@@ -181,7 +181,7 @@ error:
 func (x Int) GoInt() (int, error) {
 	r := int(x)
 	if Int(r) != x {
-		return 0, overflowErrorGo
+		return 0, overflowErrorGo()
 	}
 	return int(r), nil
 }
@@ -204,10 +204,8 @@ func (a Int) M__repr__() (Object, error) {
 // Arithmetic
 
 // Errors
-var (
-	divisionByZero     = ExceptionNewf(ZeroDivisionError, "division by zero")
-	negativeShiftCount = ExceptionNewf(ValueError, "negative shift count")
-)
+func divisionByZero() *Exception     { return ExceptionNewf(ZeroDivisionError, "division by zero") }
+func negativeShiftCount() *Exception { return ExceptionNewf(ValueError, "negative shift count") }
 
 // Constructs a TypeError
 func cantConvert(a Object, to string) (Object, error) {
@@ -346,7 +344,7 @@ func intMul(a, b Int) Object {
 // Left shift a << b
 func intLshift(a, b Int) (Object, error) {
 	if b < 0 {
-		return nil, negativeShiftCount
+		return nil, negativeShiftCount()
 	}
 	shift := uint(b)
 	r := a << shift
@@ -417,7 +415,7 @@ func (a Int) M__truediv__(other Object) (Object, error) {
 	fa := Float(a)
 	fb := b.(Float)
 	if fb == 0 {
-		return nil, divisionByZero
+		return nil, divisionByZero()
 	}
 	return Float(fa / fb), nil
 }
@@ -433,7 +431,7 @@ func (a Int) M__rtruediv__(other Object) (Object, error) {
 	fa := Float(a)
 	fb := b.(Float)
 	if fa == 0 {
-		return nil, divisionByZero
+		return nil, divisionByZero()
 	}
 	return Float(fb / fa), nil
 }
@@ -474,7 +472,7 @@ func (a Int) M__imod__(other Object) (Object, error) {
 
 func (a Int) divMod(b Int) (Object, Object, error) {
 	if b == 0 {
-		return nil, nil, divisionByZero
+		return nil, nil, divisionByZero()
 	}
 	if a == IntMin && b == -1 {
 		// The only overflowing case
@@ -540,7 +538,7 @@ func (a Int) M__ilshift__(other Object) (Object, error) {
 func (a Int) M__rshift__(other Object) (Object, error) {
 	if b, ok := convertToInt(other); ok {
 		if b < 0 {
-			return nil, negativeShiftCount
+			return nil, negativeShiftCount()
 		}
 		// Can't overflow
 		return Int(a >> uint64(b)), nil
@@ -551,7 +549,7 @@ func (a Int) M__rshift__(other Object) (Object, error) {
 func (a Int) M__rrshift__(other Object) (Object, error) {
 	if b, ok := convertToInt(other); ok {
 		if a < 0 {
-			return nil, negativeShiftCount
+			return nil, negativeShiftCount()
 		}
 		// Can't overflow
 		return Int(b >> uint64(a)), nil
